@@ -343,6 +343,7 @@ unsigned long SSA::locate(uchar *pattern, uint m, size_t **occs) {
     while (i <= ep) {
       j = i;
       dist = 0;
+      c = 0;
 
       while (!sampled->access(j)) {
         c = bwt->access(j, rank_tmp);
